@@ -266,12 +266,27 @@ func parseCryptoFunction(raw, crypto string) (SuiteConfig, error) {
 // and sets fields in the given cfg. Example approach; adapt as needed.
 func parseDataInputTokens(cfg *SuiteConfig, input string) error {
 	toks := strings.Split(input, "-")
+	// RFC 6287 section 6.3: the data inputs come in the order C, Q, P, S, T, each at most once
+	stage := 0
+	next := func(s int, tok string) error {
+		if s <= stage {
+			return fmt.Errorf("data input token %q repeated or out of order", tok)
+		}
+		stage = s
+		return nil
+	}
 	for _, tok := range toks {
 		tokU := strings.ToUpper(tok)
 		switch {
 		case tokU == "C":
+			if err := next(1, tok); err != nil {
+				return err
+			}
 			cfg.IncludeCounter = true
 		case strings.HasPrefix(tokU, "QN"):
+			if err := next(2, tok); err != nil {
+				return err
+			}
 			cfg.IncludeChallenge = true
 			if len(tokU) == 4 {
 				// e.g. "QN08"
@@ -287,13 +302,22 @@ func parseDataInputTokens(cfg *SuiteConfig, input string) error {
 				}
 			}
 		case strings.HasPrefix(tokU, "QA"):
+			if err := next(2, tok); err != nil {
+				return err
+			}
 			cfg.IncludeChallenge = true
 			// similar approach for alpha
 			// ...
 		case strings.HasPrefix(tokU, "QH"):
+			if err := next(2, tok); err != nil {
+				return err
+			}
 			cfg.IncludeChallenge = true
 			// ...
 		case strings.HasPrefix(tokU, "PSHA"):
+			if err := next(3, tok); err != nil {
+				return err
+			}
 			cfg.IncludePassword = true
 			switch tokU {
 			case "PSHA1":
@@ -307,6 +331,9 @@ func parseDataInputTokens(cfg *SuiteConfig, input string) error {
 			}
 		case strings.HasPrefix(tokU, "T"):
 			// This might parse e.g. "T1M" => 60 seconds
+			if err := next(5, tok); err != nil {
+				return err
+			}
 			cfg.IncludeTimestamp = true
 			// parse after 'T', e.g. "1M" => 60, "30S" => 30, "1H" => 3600
 			gran := tok[1:]
@@ -324,6 +351,9 @@ func parseDataInputTokens(cfg *SuiteConfig, input string) error {
 				if _, err := strconv.ParseUint(tokU[1:], 10, 16); err != nil {
 					return fmt.Errorf("unknown data input token %q", tok)
 				}
+			}
+			if err := next(4, tok); err != nil {
+				return err
 			}
 			cfg.IncludeSession = true
 			// parse length if needed
